@@ -55,6 +55,7 @@ NFAM = 12
 def check_world(W, k, colocate, work, frac=None):
     """Instantiate the assignment on every rank and check the C06 relations.
     Returns None or (key, msg)."""
+    # (decoy objects with another configuration are created in between, see below)
     from kfac.assignment import KAISAAssignment
 
     frac = k / W if frac is None else frac
@@ -68,6 +69,19 @@ def check_world(W, k, colocate, work, frac=None):
         except Exception as e:
             return 'construction', f'KAISAAssignment(W={W}, fraction={frac!r} (k={k}), rank={r}) raised {type(e).__name__}: {e}'
         insts.append(a)
+    # Decoys: other assignment objects over the SAME layer names with another worker count, the other co-location choice and
+    # other costs are created after the ones under test and kept alive while those are queried (a training script that builds a
+    # second preconditioner, or a sweep over strategies in one process); objects must not share state.
+    decoys = []
+    k2 = W if k != W else 1
+    names = list(work)
+    work2 = {n: {f: (c + 1) * (len(names) - i) for f, c in work[n].items()} for i, n in enumerate(names)}
+    for r in sorted({0, W - 1}):
+        try:
+            decoys.append(KAISAAssignment(work2, local_rank=r, world_size=W, grad_worker_fraction=k2 / W,
+                                          group_func=lambda ranks: tuple(sorted(ranks)), colocate_factors=not colocate))
+        except Exception:  # noqa: BLE001  (the decoy configuration is not under test)
+            pass
     a0 = insts[0]
     layers = a0.get_layers()
     if set(layers) != set(work):
